@@ -137,6 +137,9 @@ def subtype_guess(a, b):
     return False
 
 
+MONITOR_ONLY = 0
+
+
 def edge_templates():
     """results that come from the 'other' source of an operator: the initial value of a reduce over an
     empty iterator, the unit of a built-in reducer, the missing else, the arm of another type"""
@@ -161,19 +164,39 @@ def edge_templates():
             e = srcv if op not in ("all", "any") else ("repeat", ("true",), I(0))
             out.append([("fndecl", "g", [("a", arr(INT) if op not in ("all", "any") else arr(BOOL))], ANY, [("return", ("post", op, ("post", "iter", V("a"))))]),
                         ("call", V("g"), [e])])
+    # the iterator of an empty array literal (element type `!`) handed over at a wider iterator type, then reduced.
+    # The untyped reference semantics picks the unit of $+ / $* by the iterator's run-time type (int); the
+    # implementation uses the static element type: these programs are judged by the monitor only (MONITOR_ONLY)
+    global MONITOR_ONLY
+    MONITOR_ONLY = len(out)
+    for elem, ops_ in ((STR, ("sum",)), (FLOAT, ("sum", "product")), (INT, ("sum", "product", "bitand", "bitor")), (BOOL, ("all", "any"))):
+        for op in ops_:
+            out.append([("fndecl", "f", [], fn((), tup(BOOL, elem)), [("return", ("post", "iter", ("array", [])))]),
+                        ("post", op, ("call", V("f"), []))])
+            out.append([("fndecl", "g", [("it", fn((), tup(BOOL, elem)))], ANY, [("return", ("post", op, V("it")))]),
+                        ("call", V("g"), [("post", "iter", ("array", []))])])
+    tail = []
     for c in (("true",), ("false",)):
-        out.append([("fndecl", "hb", [("v", BOOL)], BOOL, [("return", V("v"))]), ("set", "r", ("if", ("call", V("hb"), [c]), ("block", [I(1)]), None)), V("r")])
-        out.append([("fndecl", "hb", [("v", BOOL)], BOOL, [("return", V("v"))]),
-                    ("set", "r", ("if", ("call", V("hb"), [c]), ("block", [I(1)]), ("block", [("s", "x")]))), V("r")])
-    return out
+        tail.append([("fndecl", "hb", [("v", BOOL)], BOOL, [("return", V("v"))]), ("set", "r", ("if", ("call", V("hb"), [c]), ("block", [I(1)]), None)), V("r")])
+        tail.append([("fndecl", "hb", [("v", BOOL)], BOOL, [("return", V("v"))]),
+                     ("set", "r", ("if", ("call", V("hb"), [c]), ("block", [I(1)]), ("block", [("s", "x")]))), V("r")])
+    mon = out[MONITOR_ONLY:]
+    return out[:MONITOR_ONLY] + tail, mon
 
 
 def run(res, tier, seed, broken_model):
     rnd = random.Random(seed)
-    erecs = P.run_programs(edge_templates(), broken_model=broken_model)
-    res.streams["edge-results"] = dict(programs=len(erecs))
-    progprop.judge(res, erecs, broken_model, label="edge")
-    monitor_oracle(res, erecs, "edge")
+    spec_t, mon_t = edge_templates()
+    erecs = P.run_programs(spec_t, broken_model=broken_model)
+    mrecs = P.run_programs(mon_t, broken_model=True)
+    res.streams["edge-results"] = dict(programs=len(erecs), monitor_only=len(mrecs))
+    progprop.judge(res, erecs, broken_model, label="edge", ntemplates=len(erecs))
+    monitor_oracle(res, erecs + mrecs, "edge")
+    for r in mrecs:
+        res.evaluations += 1
+        if r.status in ("exec-panic", "parse-panic", "impl-crash"):
+            res.violation("accepted program panics / crashes: `%s`: %s" % (r.src[:200], r.impl[:120]), dict(program=r.src, impl=r.impl),
+                          dict(oracle="panic", root="edge"))
     feats = dict(mark=0.15)
     recs, good = progprop.stream(res, tier, seed, broken_model, 600, 20000, features=feats, label="programs", depth=3)
     monitor_oracle(res, recs, "programs")
